@@ -250,11 +250,13 @@ func (f *frame) contractCallEnv(ct *Contract, key string, fn *ssa.Function, extr
 		vars["result"] = res[0]
 	}
 	// results declared fresh(...) by the contract get their own new backing object
+	freshDone := map[string]bool{}
 	for _, e := range ct.Ensures {
 		for _, fx := range freshArgs(e.X) {
-			if fx.Op != "ident" {
+			if fx.Op != "ident" || freshDone[fx.Tok] {
 				continue
 			}
+			freshDone[fx.Tok] = true
 			rv, ok := vars[fx.Tok]
 			if !ok {
 				continue
@@ -272,11 +274,9 @@ func (f *frame) contractCallEnv(ct *Contract, key string, fn *ssa.Function, extr
 				inner := u.fresh("fresh_arr")
 				u.items = append(u.items, fmt.Sprintf("(declare-const %s (Array Int %s))", inner, u.tc.smt(es)))
 				u.setHeap(f.cur, hn, hs, sto(h, r, Term{inner, nil}))
-				u.assume(eq(sliceRef(rt), r))
 			case KRef:
 				el := u.pointee(rt)
 				r := u.alloc(f.cur, rt.T.Go)
-				u.assume(eq(rt, r))
 				if stt, ok := el.Underlying().(*types.Struct); ok {
 					for i := 0; i < stt.NumFields(); i++ {
 						hn, hs, fs := u.fieldHeapName(el, i)
@@ -315,6 +315,16 @@ func (f *frame) contractCallEnv(ct *Contract, key string, fn *ssa.Function, extr
 		t := post.evalBool(e.X)
 		u.assume(implies(f.curReach, t))
 	}
+	if f.top {
+		// vacuity guard: the callee's contract must not make the continuation unreachable
+		u.covCtr++
+		if u.callOrd == nil {
+			u.callOrd = map[string]int{}
+		}
+		u.callOrd[key]++
+		u.obls = append(u.obls, &Obligation{Name: fmt.Sprintf("cover.%s.after-call%d.%s#%d", f.key, u.covCtr, shortKey(key), u.callOrd[key]), Kind: "cover", Goal: not(f.curReach), NItems: len(u.items), Fn: f.key, Cover: true,
+			Src: "the path continues after the call of " + key + " at " + f.pos(ins) + " (callee contract consistent here)"})
+	}
 	return packResults(res, resT)
 }
 
@@ -329,15 +339,20 @@ func shortKey(k string) string {
 	return sanitize(k)
 }
 
-// freshArgs returns the arguments of fresh(...) that occur as top-level conjuncts of x.
+// freshArgs returns the arguments of fresh(...) that occur anywhere in x. For each of them the caller
+// reserves exactly one new object (fresh(e) then pins e to it: old frontier <= ref(e) < new frontier).
 func freshArgs(x *SX) []*SX {
-	switch {
-	case x.Op == "bin" && x.Tok == "&&":
-		return append(freshArgs(x.Args[0]), freshArgs(x.Args[1])...)
-	case x.Op == "call" && x.Args[0].Op == "ident" && x.Args[0].Tok == "fresh" && len(x.Args) == 2:
+	if x == nil {
+		return nil
+	}
+	if x.Op == "call" && x.Args[0].Op == "ident" && x.Args[0].Tok == "fresh" && len(x.Args) == 2 {
 		return []*SX{x.Args[1]}
 	}
-	return nil
+	var out []*SX
+	for _, a := range x.Args {
+		out = append(out, freshArgs(a)...)
+	}
+	return out
 }
 
 // applyModifies havocs the locations named in the modifies clauses (evaluated in the pre-state).
